@@ -520,12 +520,14 @@ class Driver:
         # Few, large chunks: every chunk is one forked batch child (or, for non-batch engines, a
         # stream of forked children) and process creation is what this sandbox is slow at.
         chunk = max(cfg.get('chunk', 20), -(-total // (self.jobs * cfg.get('chunks_per_job', 2))))
-        deadline = time.time() + wall
+        deadline = int(time.time() + wall)
         need_scratch = getattr(mod, 'NEEDS_SCRATCH', False)
+        self.chunk_cpu = {}
         runs = list(range(total))
         chunks = [runs[i:i + chunk] for i in range(0, len(runs), chunk)]
         # determinism spot-check: the first few runs are executed twice, in another process
         ndet = min(cfg.get('det_runs', 6), total)
+        self.chunks = chunks
         pending = [('main%d' % i, c, deadline, self.scratch if need_scratch else None) for i, c in enumerate(chunks)]
         pending.insert(min(1, len(pending)), ('det', list(range(ndet)), deadline + 120,
                                               (self.scratch + '/det') if need_scratch else None))
@@ -541,6 +543,8 @@ class Driver:
                 tag, c, dl, sc = pending.pop(0)
                 cpu = free_cpus.pop(0)
                 w = _Worker(self, c, dl, sc, cpu, tag)
+                if c:
+                    self.chunk_cpu[c[0]] = cpu
                 active[w] = cpu
             rl, _, _ = select.select(list(active), [], [], 1.0)
             for w in rl:
@@ -592,6 +596,44 @@ class Driver:
             if v and v.get('kind') == kind:
                 ok += 1
         return ok == times
+
+    def run_prefix(self, runs, stop_at=None, cpu=None, timeout=600):
+        """Re-execute a chunk exactly as ``explore`` did (same worker spec: same run list, same CPU, so the
+        same allocation history), stopping once the outcome of run ``stop_at`` has arrived."""
+        need = getattr(self.mod, 'NEEDS_SCRATCH', False)
+        w = _Worker(self, runs, int(time.time() + timeout), (self.scratch + '/pfx') if need else None, cpu, 'prefix')
+        t_end = time.time() + timeout
+        while not w.finished and time.time() < t_end:
+            rl, _, _ = select.select([w], [], [], 1.0)
+            if rl:
+                w.on_readable()
+            w.check_timeout()
+            if stop_at is not None and any(r.get('run') == stop_at for r in w.results):
+                break
+        if not w.finished:
+            w.todo = []
+            w._ended('timeout')
+        return w.results
+
+    def confirm_with_prefix(self, run, kind):
+        """A violation that needs the process history of its batch (e.g. id() reuse): re-run its chunk in a
+        fresh worker with the identical specification. Returns (chunk runs, cpu) or None."""
+        chunk = None
+        for i, c in enumerate(getattr(self, 'chunks', [])):
+            if run in c:
+                chunk = c
+        if not chunk:
+            return None
+        cpu = getattr(self, 'chunk_cpu', {}).get(chunk[0])
+        for _ in range(2):
+            ok = False
+            for r in self.run_prefix(chunk, stop_at=run, cpu=cpu):
+                if r.get('run') == run:
+                    v = r.get('violation')
+                    ok = bool(v and v.get('kind') == kind)
+            if not ok:
+                return None
+        return chunk, cpu
 
     def minimise(self, case, violation, budget=60.0):
         mod = self.mod
@@ -688,9 +730,26 @@ class Driver:
                 case['scratch'] = os.path.join(self.scratch, 'min%d' % r['run'])
             # first: does it replay at all?
             if not self.confirm(case, kind, times=1):
-                unrepro += 1
-                print('UNREPRODUCIBLE property=%s kind=%s run=%d (not reported as a violation)' %
-                      (self.prop_id, kind, r['run']), file=sys.stderr, flush=True)
+                prefix = self.confirm_with_prefix(r['run'], kind) if getattr(mod, 'BATCH', False) else None
+                if prefix is None:
+                    unrepro += 1
+                    print('UNREPRODUCIBLE property=%s kind=%s run=%d (not reported as a violation)' %
+                          (self.prop_id, kind, r['run']), file=sys.stderr, flush=True)
+                    continue
+                # reproducible only together with the process history of its batch (allocation layout)
+                pcase = dict(case)
+                pcase['prefix_runs'] = prefix[0]
+                pcase['prefix_cpu'] = prefix[1]
+                pcase['stop_at'] = r['run']
+                pcase['tier'] = self.tier
+                v2 = dict(r['violation'])
+                v2['layout_dependent'] = True
+                k = match_known(mod, known, pcase, v2)
+                if k is not None:
+                    known_hits.setdefault(k['id'], []).append(r)
+                    continue
+                path = self.write_replay(pcase, v2, kind + '-withprefix')
+                reported.append((kind, path, v2))
                 continue
             mcase, mv = self.minimise(case, r['violation'], budget=min_budget)
             if not self.confirm(mcase, kind, times=2):
@@ -829,6 +888,20 @@ def replay(prop_id, path):
     with open(path) as f:
         rec = json.load(f)
     case = rec['case']
+    if case.get('prefix_runs'):
+        d = Driver(prop_id, case.get('tier', 'quick'), rec.get('seed', 0))
+        try:
+            res = d.run_prefix(case['prefix_runs'], stop_at=case.get('stop_at'), cpu=case.get('prefix_cpu'))
+        finally:
+            d.cleanup()
+        exp = rec.get('expect', {})
+        for r in res:
+            if r.get('run') == case.get('stop_at', case['prefix_runs'][-1]) and r.get('violation') and r['violation'].get('kind') == exp.get('kind'):
+                print('VIOLATION property=%s replay=%s' % (prop_id, path))
+                print('  kind=%s detail=%s' % (r['violation']['kind'], (r['violation'].get('detail') or '')[:1000]))
+                return 1
+        print('replay (with batch prefix of %d runs) did not reproduce the violation' % len(case['prefix_runs']))
+        return 0
     scratch = None
     if need_scratch(mod):
         base = '/dev/shm' if os.path.isdir('/dev/shm') else None
